@@ -53,10 +53,14 @@ def _guess(op, iv):
     return None
 
 
+INFO = {'infeasible': False}
+
+
 def range_lemmas(root, var_ranges, pc, libm_aux, name):
     """returns (lemmas, root_interval) ; lemmas = list of (label, assumptions, claim) one-operation obligations;
     root_interval None if some node could not be bounded.
     var_ranges: {var name: (lo, hi)};  pc: literals (B nodes) of the path;  libm_aux: [(result var node, kind, arg node)]"""
+    INFO['infeasible'] = False
     refine = {}
     for lit in pc:
         neg = False
@@ -152,6 +156,7 @@ def range_lemmas(root, var_ranges, pc, libm_aux, name):
                   r = (max(r[0], lo), min(r[1], hi))
               if r[0] > r[1]:
                   r = None
+                  INFO['infeasible'] = True      # a path-condition literal contradicts a proved interval: the path is infeasible (given the lemmas)
           if r is not None:
               iv[n.id] = r
     return lemmas, iv.get(root.id)
